@@ -118,6 +118,7 @@ func stops(b string) bool { return b == bFailNow || b == bPanic }
 func check(r *hlib.Rec, p program) {
 	r.Eval()
 	input := p.String()
+	r.SampleCase(input)
 	cancelAt := time.Duration(-1)
 	if p.ending == "cancel" {
 		cancelAt = 150 * time.Millisecond
